@@ -94,7 +94,7 @@ def lon_checks(ring_as_returned, case):
         raise Violation("longitude_span", case, observed=(min(lons), max(lons)), expected="span < 180")
 
 
-def judge_cell(cell, col, cls, enumerated=False):
+def judge_cell(cell, col, cls, enumerated=False, only_segments=None):
     a5 = _a5()
     res = refids.res_of(cell)
     base = 3 if res == 1 else 5
@@ -123,6 +123,8 @@ def judge_cell(cell, col, cls, enumerated=False):
     pool = (4, 5, 6, 8, 9, 12, 15, 17, 31, 32, 33, 63, 64, 65, 100, 127, 128, 129, 200, 255, 256, 257)
     extra = pool[(cell >> 7 ^ cell >> 23 ^ cell >> 41 ^ cell >> 58) % len(pool)]
     calls += [((extra, True), _opts(extra, True)), ((extra, False), _opts(extra, False))]
+    if only_segments is not None:
+        calls = [((k, (k + res) % 2 == 0), _opts(k, (k + res) % 2 == 0)) for k in only_segments]
     for tag, opts in calls:
         case = {"cell": cid, "opts": opts if opts is None else {k: v for k, v in opts.items()}}
         snap = copy.deepcopy(opts)
@@ -208,6 +210,24 @@ def stage_boundary(ctx):
     hyp_drive(ctx, strat, judge, 25 if ctx.tier == "quick" else 600)
 
 
+def stage_all_segments(ctx):
+    """`segments` is any integer >= 1 and the ring construction divides by it: every value 1..320 (quick) / 1..1300
+    (thorough) on a handful of cells (a res-0 pentagon, a res-1 cell, an antimeridian cell, a polar cell, mid and deep
+    cells chosen by the seed), open and closed rings alternating."""
+    a5 = _a5()
+    top = 320 if ctx.tier == "quick" else 1300
+    cells = [refids.enc(0, ctx.seed % 12, 0, 0), refids.enc(1, (ctx.seed * 5 + 3) % 12, ctx.seed % 5, 0),
+             a5.lonlat_to_cell((179.99, 10.0 + ctx.seed), 5), a5.lonlat_to_cell((20.0, 89.9), 4),
+             refids.enc(9, (ctx.seed + 7) % 12, (ctx.seed + 1) % 5, (4 ** 8) // 3), refids.enc(29, (ctx.seed + 2) % 12, 3, (4 ** 28) // 7)]
+    jobs = [(c, k) for c in cells for k in range(1, top + 1)]
+    by_cell = {}
+    for c, k in jobs[ctx.shard::ctx.nshards]:
+        by_cell.setdefault(c, []).append(k)
+    for c, ks in by_cell.items():
+        judge_cell(c, ctx.col, "all_segments", enumerated=True, only_segments=ks)
+    ctx.col.exhaustive[f"segments 1..{top} on 6 cells"] = True
+
+
 def stage_polar_rosette(ctx):
     """All cells in the first few rings around both poles: points at 0.5..6 cell widths from the pole on 36 meridians,
     at 6 (quick) / 28 (thorough) resolutions; every cell found gets the full option grid."""
@@ -232,11 +252,14 @@ def stage_polar_rosette(ctx):
 
 def plan(tier):
     return [Stage("enum", 16, stage_enum, cost=8), Stage("hyp", 16, stage_hyp, cost=6), Stage("boundary", 16, stage_boundary, cost=4),
-            Stage("polar_rosette", 12, stage_polar_rosette, cost=5)]
+            Stage("polar_rosette", 12, stage_polar_rosette, cost=5), Stage("all_segments", 16, stage_all_segments, cost=6)]
 
 
 def replay(rec, col):
     case = rec["case"]
     if "opts" in case:
+        seg = (case["opts"] or {}).get("segments")
+        if isinstance(seg, int) and not isinstance(seg, bool) and seg >= 1:
+            judge_cell(int(case["cell"], 16), col, "replay", enumerated=True, only_segments=[seg])
         case = {"cell": case["cell"]}
     judge(case, col)
